@@ -106,6 +106,15 @@ def run(ctx, progs):
                 blocks = natural_loop(b, h, ls)
                 if c.bb in blocks:
                     cands.append((len(blocks), h, ls, blocks))
+            if not cands and b.impl_trait in ("io::ReadVolatile", "io::WriteVolatile") and b.name == canon(c.callee).split('::')[-1]:
+                # a forwarding implementation of the stream interface itself (`impl ReadVolatile for &mut T`, `Box<T>`): it IS a
+                # single-shot stream call. If it returns the inner result unchanged,
+                # an interruption reaches the caller's retry loop exactly as from the inner stream: nothing is swallowed or added.
+                rts = [deep_strip(t) for _p, t in b.return_terms()]
+                fw = rts == [S]
+                ctx.ob("R14.1.retry_loop", inst, fw, c.where(),
+                       f"forwarding impl of {b.impl_trait}::{b.name}: returns the inner stream's result unchanged [{fw}] (retrying stays with the callers, which this rule checks)")
+                continue
             if not cands:
                 ctx.ob("R14.1.retry_loop", inst, False, c.where(), "call to an unknown stream is not inside any loop: an interrupted call (EINTR) would be reported instead of retried")
                 continue
